@@ -3,6 +3,7 @@ import ast
 
 from sa.helpers import (guard_is, same_cond, the_return, mkflow, spec, code, one, calls, bind_call, param_env,
                         fmt, atom_of, unparse, walk_no_nested, unalloc, call_kw)
+from sa.helpers import unmut
 from sa.index import AnalysisError, ClassInfo
 from sa.algebra import RF, Slice
 from sa.api import api_obligations
@@ -168,7 +169,7 @@ def _run(ix, R):
         tot_ev = [e for e in fl.of('assign') if not e.loops and not e.guards and atom_of(fl, e.value) is not None
                   and atom_of(fl, e.value).head == 'call' and atom_of(fl, e.value).extra[0] == 'fn:sum']
         if total is None or len(tot_ev) != 1 or not fl.tab.equal(tot_ev[0].value, total) or \
-                apps.recv_rf is None or not fl.tab.equal(atom_of(fl, tot_ev[0].value).args[0], apps.recv_rf):
+                apps.recv_rf is None or not fl.tab.equal(unmut(fl, atom_of(fl, tot_ev[0].value).args[0]), apps.recv_rf):
             why.append('the total that is checked is not sum(list of the appended profiles)')
         R.check('3.gasorder', 'EFF', site,
                 'each gas is initialised with (nlayers, T, P, z) and its mixProfile appended in the order of self._gases',
